@@ -107,7 +107,7 @@ def tuner_case(args) -> dict:
     task = DriverTask(variables=[ContinuousVariable(name="x", lower_bound=0.0, upper_bound=1.0)], minmax=direction,
                       data={"dir": d, "table": table})
     rec = {"kind": "tuner", "scores": [list(s) for s in scores], "dir": direction, "nt": nt, "grid": grid, "n_jobs": n_jobs,
-           "raised": False, "calls": [], "best": 1, "score_ok": False, "resolve": 0}
+           "raised": False, "calls": [], "best": 1, "score_ok": False, "resolve": 0, "again_ok": True}
     try:
         with contextlib.redirect_stdout(io.StringIO()), warnings.catch_warnings():
             warnings.simplefilter("ignore")
@@ -125,6 +125,23 @@ def tuner_case(args) -> dict:
             calls = [json.loads(ln) for ln in open(os.path.join(d, "calls.ndjson"))]
             rk = calls[n0]["key"] if len(calls) == n0 + 1 else None
             rec["resolve"] = keys.index(rk) + 1 if rk in keys else 0
+            # the same tuner used again on another task (scores rotated by one point): its answer must be about THIS task
+            rec["again_ok"] = True
+            if np_ >= 2:
+                d2 = tempfile.mkdtemp(prefix="tuner2-", dir=str(WORK / "tmp"))
+                try:
+                    rot = [list(scores[(k + 1) % np_]) for k in range(np_)]
+                    task2 = DriverTask(variables=[ContinuousVariable(name="x", lower_bound=0.0, upper_bound=1.0)], minmax=direction,
+                                       data={"dir": d2, "table": {point_key(p): rot[k] for k, p in enumerate(pts)}})
+                    tuner.execute(task=task2, n_trials=nt, n_jobs=n_jobs, mode=mode)
+                    b2 = point_key(tuner.best_parameters)
+                    i2 = keys.index(b2) if b2 in keys else -1
+                    sums = [sum(x) for x in rot]
+                    opt = min(sums) if direction == "min" else max(sums)
+                    mean2 = sums[i2] / nt if i2 >= 0 else float("nan")
+                    rec["again_ok"] = bool(i2 >= 0 and sums[i2] == opt and abs(float(tuner.best_score) - mean2) <= 1e-12 * max(1.0, abs(mean2)))
+                finally:
+                    shutil.rmtree(d2, ignore_errors=True)
     except Exception as ex:
         rec["raised"] = True
         rec["exception"] = f"{type(ex).__name__}: {str(ex)[:200]}"
